@@ -288,9 +288,14 @@ structure Spec where
   train : List CondSpec
   val : List CondSpec
 
+/-- first occurrences, in order (`nn.Module.parameters()` yields every tensor object once) -/
+def uniq : List Nat → List Nat
+  | [] => []
+  | x :: xs => x :: (uniq xs).filter (· != x)
+
 /-- `Solver.parameters()`: `ModuleList(train) , ModuleList(val)` traversed in order, every tensor once -/
 def registry (s : Spec) : List Nat :=
-  ((s.train ++ s.val).flatMap (·.tensors)).eraseDups
+  uniq ((s.train ++ s.val).flatMap (·.tensors))
 
 def CondSpec.lossAt (c : CondSpec) (n : Nat) : PExp :=
   c.losses.getD (n % c.losses.length) (.const 0)
